@@ -31,10 +31,9 @@ def needs_paragraph(notes):
     return text[:700]
 
 
-def main():
-    src, label = sys.argv[1], sys.argv[2]
-    detect = {}
-    for path in sys.argv[3:]:
+def read_logs(paths):
+    out = {}
+    for path in paths:
         for ln in open(path):
             m = re.match(r'^(C\d\d) (m\d)\b(.*)$', ln.strip())
             if not m:
@@ -42,7 +41,28 @@ def main():
             n = re.search(r'violations: (\d+)', m.group(3))
             fn = re.search(r'replay=/verif/replays/C\d\d_([a-z0-9_]+?)_[0-9a-f]{10}\.json', m.group(3))
             if n:
-                detect[(m.group(1), m.group(2))] = {'quick_check_violations': int(n.group(1)), 'condition': fn.group(1) if fn else None}
+                out[(m.group(1), m.group(2))] = {'quick_check_violations': int(n.group(1)), 'condition': fn.group(1) if fn else None}
+    return out
+
+
+def main():
+    """usage: seeded_import.py <srcroot> <label> --first LOG [--wrong-reason ID:m,...] --final LOG [LOG ...]"""
+    src, label = sys.argv[1], sys.argv[2]
+    rest = sys.argv[3:]
+    first_logs, final_logs, wrong = [], [], set()
+    mode = None
+    for a in rest:
+        if a in ('--first', '--final', '--wrong-reason'):
+            mode = a
+        elif mode == '--first':
+            first_logs.append(a)
+        elif mode == '--final':
+            final_logs.append(a)
+        elif mode == '--wrong-reason':
+            wrong.update(tuple(x.split(':')) for x in a.split(','))
+    first = read_logs(first_logs)
+    detect = dict(first)
+    detect.update(read_logs(final_logs))
     done = []
     for pid in sorted(os.listdir(src)):
         for m in sorted(os.listdir(os.path.join(src, pid))):
@@ -61,17 +81,28 @@ def main():
             for f in ('patch.diff', 'demo.py', 'NOTES.md'):
                 if os.path.exists(os.path.join(d, f)):
                     shutil.copy(os.path.join(d, f), os.path.join(dst, f))
+            ported = os.path.exists(os.path.join(d, 'patch_ported.diff'))
+            if ported:
+                # re-based onto a later fix: the re-based patch is the one that applies to /repo's HEAD
+                shutil.copy(os.path.join(d, 'patch.diff'), os.path.join(dst, 'patch_original.diff'))
+                shutil.copy(os.path.join(d, 'patch_ported.diff'), os.path.join(dst, 'patch.diff'))
             notes = open(os.path.join(d, 'NOTES.md')).read() if os.path.exists(os.path.join(d, 'NOTES.md')) else ''
             title = notes.splitlines()[0].lstrip('# ').strip() if notes else ''
             title = re.sub(r'^C\d\d\s*/\s*(change\s*\d|m\d)\s*(—|--|-)\s*', '', title)
             det = detect.get((pid, m))
+            f = first.get((pid, m))
+            first_run = None
+            if f is not None:
+                first_run = {'caught': f['quick_check_violations'] > 0 and (pid, m) not in wrong, 'condition': f['condition']}
+                if (pid, m) in wrong:
+                    first_run['note'] = 'flagged through an incomplete stub (the change calls a function the fake file system lacked): not counted'
             meta = {'property': pid, 'round': label, 'change': title, 'needs_to_manifest': needs_paragraph(notes),
                     'author': 'independent sub-agent given only the property text and its own scratch worktree',
                     'confirmed': {'by': 'tools/confirm_mutant.sh in a scratch worktree of /repo', 'at_repo_head': conf.get('head'),
                                   'patch_applies': conf.get('applies'), 'demo_exit_without_change': conf.get('demo_rc_clean'),
                                   'demo_exit_with_change': conf.get('demo_rc_mutant'), 'pinned_suite_with_change': conf.get('suite'),
                                   'unexpected_failures': conf.get('unexpected_failures')},
-                    'quick_check': det}
+                    'ported': ported, 'first_run': first_run, 'quick_check': det}
             json.dump(meta, open(os.path.join(dst, 'meta.json'), 'w'), indent=1)
             done.append(key)
     print('imported %d: %s' % (len(done), ' '.join(done)))
